@@ -14,6 +14,7 @@ late failure report of a connection attempt abandoned by a reset parked it in ER
 -/
 import GeckoModel.Model.Recovery
 import GeckoModel.Model.Coop
+import GeckoModel.Proofs.Cancel
 import GeckoModel.Generated.Skeletons
 
 namespace GeckoModel.C09
@@ -172,5 +173,35 @@ theorem midsession_blackout_recovers :
 theorem bounds_today :
     recoveryBound Config.idleTable = 369 ∧ recoveryBound Config.activeTable = 311 ∧
     unreachableBound Config.idleTable = 247 ∧ unreachableBound Config.activeTable = 21 := by decide +kernel
+
+/-! ### the sequence pump outlives every failure of what it calls -/
+
+/-- the awaits of the pump that can fail with an ordinary exception: the library coroutines it drives (locate, connect, reset) -
+the two sleeps raise nothing but a cancellation -/
+def pumpCall : Coop.Ev → Bool
+  | .aw n => n != "asyncio.sleep" && n != "config_sleep"
+  | .act _ => false
+
+/-- **the background sequence never dies of an exception** (over the regenerated skeleton of `_sequence_pump`, with Python's rule
+for which handler gets an exception): whatever `async_locate_spas`, `async_connect` or `async_reset` raise - at whichever point, in
+whichever turn of the loop - a handler swallows it and the loop goes on; only a cancellation ends the pump
+(`C10.cancellation_ends_every_coroutine`).  This is the structural fact behind the model's `pump_survives_step` -/
+theorem pump_survives_every_exception :
+    Coop.survivesEveryException pumpCall Skeletons.sk_async_spa_manager__GeckoAsyncSpaMan__sequence_pump = true ∧
+    (Coop.awaitsIn Skeletons.sk_async_spa_manager__GeckoAsyncSpaMan__sequence_pump).filter (fun n => pumpCall (.aw n)) =
+      ["self.async_locate_spas", "self.async_connect", "self.async_reset"] := by decide +kernel
+
+/-- the same semantically: an exception thrown at any of those awaits never propagates out of the pump -/
+theorem pump_contains_every_exception {o : Coop.Out}
+    (h : Coop.Thrown Coop.catchesAny pumpCall Skeletons.sk_async_spa_manager__GeckoAsyncSpaMan__sequence_pump o) : o ≠ .exc :=
+  Coop.exception_is_contained pump_survives_every_exception.1 h
+
+/-- non-vacuity: the same loop without the inner `except Exception` dies of the first failing call (the state of the tree before
+the repair of finding D8a) -/
+example : Coop.survivesEveryException pumpCall
+    (.tryExc (.loop (.seq (.ev (.aw "self.async_connect")) (.ev (.aw "asyncio.sleep")))) (.seq (.ev (.act ⟨.exc, "asyncio.CancelledError"⟩)) .raise)) = false ∧
+    Coop.survivesEveryException pumpCall
+    (.tryExc (.loop (.seq (.tryExc (.ev (.aw "self.async_connect")) (.alt (.seq (.ev (.act ⟨.exc, "asyncio.CancelledError"⟩)) .raise) (.ev (.act ⟨.exc, "Exception"⟩))))
+      (.ev (.aw "asyncio.sleep")))) (.seq (.ev (.act ⟨.exc, "asyncio.CancelledError"⟩)) .raise)) = true := by decide +kernel
 
 end GeckoModel.C09
